@@ -114,7 +114,7 @@ def extract(m, n, r, two, rev, **kw):
 def conds(tier):
     q = tier == "quick"
     cs = []
-    for (m, n) in ([(1, 1), (2, 2), (2, 3), (3, 3), (3, 4)] if q else [(1, 1), (2, 2), (2, 3), (3, 3), (3, 4), (4, 4), (3, 5)]):
+    for (m, n) in ([(1, 1), (2, 2), (2, 3), (3, 3), (3, 4), (2, 5)] if q else [(1, 1), (2, 2), (2, 3), (3, 3), (3, 4), (4, 4), (3, 5)]):
         sh = ["two"]
         if m * n >= 9:
             sh += ["r"]
